@@ -236,3 +236,13 @@ func (p *Prog) StmtTextAt(fn *ssa.Function, pos token.Pos) string {
 	}
 	return s
 }
+
+// NodeText prints a syntax node on one line.
+func (p *Prog) NodeText(n ast.Node) string {
+	if n == nil {
+		return ""
+	}
+	var sb strings.Builder
+	printer.Fprint(&sb, p.Fset, n)
+	return strings.Join(strings.Fields(sb.String()), " ")
+}
